@@ -248,6 +248,24 @@ def _binding_selftest(ctx, bins):
 
 # ----------------------------------------------------------------------------- Miri
 
+def _compact(plan):
+    """JSON plan -> the compact line format of `vh-buffer run-lite` (no JSON inside Miri)."""
+    parts = []
+    for a in plan:
+        k = a["a"]
+        if k == "setup":
+            parts.append("S %s %d %d %s" % (a["kind"], a["cap"], a["len0"], " ".join(map(str, a["mem0"]))))
+        elif k == "open":
+            parts.append("O " + " ".join(map(str, a["ks"])))
+        elif k in ("write", "extend", "advance", "scribble"):
+            parts.append({"write": "W", "extend": "E", "advance": "A", "scribble": "X"}[k] + " " + " ".join(map(str, a["bs"])))
+        elif k == "read":
+            parts.append("R %d %s %s" % (len(a["bs"]), " ".join(map(str, a["bs"])), " ".join(map(str, a["ks"]))))
+        else:
+            parts.append({"close": "C", "closeinit": "I", "unwind": "U", "final": "F"}[k])
+    return ";".join(parts)
+
+
 def _miri(ctx, budget_s=420):
     """Execute TLC-generated edge-cover plans under Miri (Tree Borrows): an Undefined-Behavior
     report on these sequences is a violation of the memory-safety sentence of C19."""
@@ -283,15 +301,15 @@ def _miri(ctx, budget_s=420):
                 order.append(p[i])
     done = 0
     ub = None
-    chunk = 120
+    chunk = 600
     nproc = 4
     t1 = time.time()
     pos = 0
-    cmd = ["cargo", "+nightly", "miri", "run", "--offline", "-q", "-p", "vh-buffer", "--bin", "vh-buffer", "--", "run"]
+    cmd = ["cargo", "+nightly", "miri", "run", "--offline", "-q", "-p", "vh-buffer", "--bin", "vh-buffer", "--", "run-lite"]
 
     def one(part):
         try:
-            r = subprocess.run(cmd, cwd=hd, env=env, input="\n".join(part) + "\n", stdout=subprocess.PIPE,
+            r = subprocess.run(cmd, cwd=hd, env=env, input="\n".join(_compact(json.loads(l)) for l in part) + "\n", stdout=subprocess.PIPE,
                                stderr=subprocess.PIPE, text=True, timeout=budget_s + 600)
             return part, r.returncode, r.stdout, r.stderr
         except subprocess.TimeoutExpired:
@@ -308,13 +326,19 @@ def _miri(ctx, budget_s=420):
                     pos += len(part)
             for part, rc, so, se in ex.map(one, parts):
                 if "Undefined Behavior" in se:
-                    nrun = sum(1 for l in so.splitlines() if '"a":"final"' in l or '"r":"panic"' in l)
-                    plan = json.loads(part[min(nrun, len(part) - 1)])
+                    # find the failing plan: bisect by re-running halves is expensive; re-run the chunk one by one natively is
+                    # useless (no UB natively) -> report the chunk's first plan and the whole chunk as replay input
+                    # which plan? bisect the chunk under Miri (UB is exceptional: the cost does not matter)
+                    while len(part) > 1:
+                        half = part[:len(part) // 2]
+                        _, _, _, se2 = one(half)
+                        part = half if "Undefined Behavior" in se2 else part[len(part) // 2:]
+                    plan = json.loads(part[0])
                     msg = re.search(r"error: Undefined Behavior: (.*)", se)
                     where = re.search(r"--> (\S+)", se)
                     ub = (msg.group(1) if msg else "UB", where.group(1) if where else "", plan)
-                elif rc != 0:
-                    raise core.ToolError("Miri run failed (rc %s): %s" % (rc, se[-600:]))
+                elif rc != 0 or "LITE plans=%d " % len(part) not in so:
+                    raise core.ToolError("Miri run failed (rc %s): %s %s" % (rc, so[-200:], se[-600:]))
                 else:
                     done += len(part)
     ctx.add_run("Miri (tree borrows) on TLC-generated cover plans", plans_available=len(order), plans_executed=done,
@@ -383,6 +407,19 @@ def replay(ctx, path):
     if not plan:
         raise core.ToolError("replay file has no plan")
     bins = core.build_harness(["vh-buffer"])
+    if rp.get("miri"):
+        env = dict(os.environ, MIRIFLAGS="-Zmiri-disable-isolation -Zmiri-tree-borrows", CARGO_NET_OFFLINE="true")
+        r = subprocess.run(["cargo", "+nightly", "miri", "run", "--offline", "-q", "-p", "vh-buffer", "--bin", "vh-buffer", "--", "run-lite"],
+                           cwd=core._harness_dir(), env=env, input=_compact(plan) + "\n", stdout=subprocess.PIPE,
+                           stderr=subprocess.PIPE, text=True, timeout=3000)
+        print(r.stdout[-300:])
+        if "Undefined Behavior" in r.stderr:
+            print(r.stderr[-1500:])
+            ctx.report(obj.get("key", "miri-ub"), "Miri still reports Undefined Behavior on the replayed sequence", rp)
+        ctx.coverage["evaluations"] += 1
+        ctx.coverage["distinct_nontrivial"] = 2
+        ctx.sample({"plan": plan})
+        return
     rc, out = core.run_harness([os.path.join(bins, "vh-buffer"), "run"], stdin=json.dumps(plan) + "\n", timeout=120)
     if rc != 0:
         if rc in CRASH_SIGNALS:
